@@ -4,6 +4,7 @@ import (
 	"fmt"
 	"go/token"
 	"go/types"
+	"strings"
 
 	"golang.org/x/tools/go/ssa"
 )
@@ -396,6 +397,47 @@ func checkC04(e *Engine, r *Report) {
 	r.MinInstances("calls yielding libmem updates in the policies", nUpd, 4)
 	r.MinInstances("calls yielding the requester's zone", nZone, 3)
 
+	// BL: allocMem keeps to the allocator's books — a container the allocator already holds an assignment for is
+	// re-allocated (widened), one it does not know is allocated; and what allocMem returns on success is the zone the
+	// allocator answered with
+	if am := e.Fn(pkgBL, "balloons.allocMem"); am != nil {
+		var okV ssa.Value
+		AllInstrs(am, func(in ssa.Instruction) {
+			if c, ok := in.(*ssa.Call); ok && callObj(c.Common()) != nil && callObj(c.Common()).Name() == "AssignedZone" && c.Referrers() != nil {
+				for _, ref := range *c.Referrers() {
+					if ex, ok := ref.(*ssa.Extract); ok && ex.Index == 1 {
+						okV = ex
+					}
+				}
+			}
+		})
+		isCallNamed := func(name string) func(ssa.Instruction) bool {
+			return func(in ssa.Instruction) bool {
+				ci, ok := in.(ssa.CallInstruction)
+				if !ok || callObj(ci.Common()) == nil || callObj(ci.Common()).Name() != name {
+					return false
+				}
+				// the memory allocator's method
+				recv := callArgs(ci)
+				return len(recv) > 0 && strings.Contains(recv[0].Type().String(), "Allocator")
+			}
+		}
+		if okV == nil {
+			r.Undecided("R1:bl-allocmem-follows-books", "data-flow zone applied", "allocMem consults AssignedZone", e.Pos(am.Pos()), am, "no AssignedZone(id) call with a used ok result")
+		} else {
+			assigned := func(val bool) Assumption {
+				return func(cond ssa.Value) (bool, bool) {
+					if unspill(cond) == okV {
+						return true, val
+					}
+					return false, false
+				}
+			}
+			p1 := FindPath(PathQuery{Fn: am, Assume: assigned(true), Target: isCallNamed("Allocate")})
+			p2 := FindPath(PathQuery{Fn: am, Assume: assigned(false), Target: isCallNamed("Realloc")})
+			r.Check("R1:bl-allocmem-follows-books", "data-flow zone applied", "allocMem re-allocates a container the allocator holds an assignment for and allocates one it does not (so the zone it returns is the one the allocator holds)", e.Pos(am.Pos()), am, p1 == nil && p2 == nil, e.pathString(p1)+e.pathString(p2), true)
+		}
+	}
 	// BL: allocMem's zone is told by pinCpuMem unless the container is memory-preserved
 	if pin, am := r.Anchor(pkgBL, "balloons.pinCpuMem"), r.Anchor(pkgBL, "balloons.allocMem"); pin != nil && am != nil {
 		for _, c := range e.callsTo(pin, am) {
